@@ -3,7 +3,7 @@
 (* a reader must report for it.  img is a record:                               *)
 (*  arch "x86"|"x64", compile (4 bytes LE), export (4 bytes LE or <<>>),         *)
 (*  lfanew, magicMZ, magicPE (4 bytes), nsec, expsec (1-based), secsize,         *)
-(*  prepend, append                                                              *)
+(*  expoff (offset of the export directory inside its section), prepend, append  *)
 EXTENDS Bytes
 Zeros(n) == Rep(0, n)
 Put(s, off, b) == [i \in 1..Len(s) |-> IF i > off /\ i <= off + Len(b) THEN b[i - off] ELSE s[i]]
@@ -15,7 +15,7 @@ Stub(arch)    == IF arch = "x64" THEN <<85, 72, 137, 229, 72, 129>> ELSE <<232, 
 
 HdrEnd(img)   == img.lfanew + 4 + 20 + OptSize(img.arch) + 40 * img.nsec
 FirstRaw(img) == ((HdrEnd(img) + 511) \div 512) * 512
-ExportRVA(img) == 4096 * img.expsec + 16
+ExportRVA(img) == 4096 * img.expsec + img.expoff
 Dos(img) == Put(Put(Put(Zeros(64), 0, img.magicMZ), Len(img.magicMZ), Stub(img.arch)), 60, LE(img.lfanew, 4))
 FileHdr(img) == Machine(img.arch) \o LE(img.nsec, 2) \o img.compile \o Zeros(8) \o LE(OptSize(img.arch), 2) \o LE(8450, 2)
 Opt(img) == LET z  == Put(Zeros(OptSize(img.arch)), 0, OptMagic(img.arch))
@@ -24,7 +24,7 @@ Opt(img) == LET z  == Put(Zeros(OptSize(img.arch)), 0, OptMagic(img.arch))
 Section(img, i) == <<46, 115, 101, 99, 48 + i, 0, 0, 0>> \o LE(img.secsize, 4) \o LE(4096 * i, 4) \o LE(img.secsize, 4)
                    \o LE(FirstRaw(img) + (i - 1) * img.secsize, 4) \o Zeros(12) \o LE(1073741888, 4)
 Body(img) == LET z == Zeros(img.secsize * img.nsec) IN
-             IF img.export = <<>> THEN z ELSE Put(z, (img.expsec - 1) * img.secsize + 16, Zeros(4) \o img.export \o Zeros(32))
+             IF img.export = <<>> THEN z ELSE Put(z, (img.expsec - 1) * img.secsize + img.expoff, Zeros(4) \o img.export \o Zeros(32))
 Image(img) == Dos(img) \o Zeros(img.lfanew - 64) \o img.magicPE \o FileHdr(img) \o Opt(img)
               \o Concat([i \in 1..img.nsec |-> Section(img, i)]) \o Zeros(FirstRaw(img) - HdrEnd(img)) \o Body(img)
 Stage(img) == img.prepend \o Image(img) \o img.append
